@@ -238,7 +238,7 @@ def run_parsers(prop, tier):
             cov["faults_fired"] = {"context_switches": agg.stats["switches"] + agg.stats["enum_switches"],
                                    "cancel_fired": agg.stats["cancel_fired"]}
             cov["probes"] = {"ctor_during_other_run": agg.stats["ctor_during_other_run"], "exc_outcomes": agg.stats["exc_outcomes"],
-                             "line_points": agg.stats["line_points"], "label_points": agg.stats["label_points"],
+                             "line_points": agg.stats["line_points"], "label_points": agg.stats["label_points"], "lock_waits": agg.stats["lock_waits"],
                              "then_objects_runs": agg.stats["then_objects_runs"], "marathon_runs": agg.stats["marathon_runs"],
                              "same_text_tasks": agg.stats["same_text_tasks"], "followup_tasks": agg.stats["followup_tasks"],
                              "runs_by_granularity": {g: agg.stats["gran_" + g] for g in ("O", "S", "L")}, "pct_runs": agg.stats["pct_runs"],
